@@ -51,6 +51,10 @@ def check_intent(p, im):
         if s["type"] == 8:
             if d["size"] != s["size"] % 2**w:
                 fails.append("section %d: no-bits size %d, asked for %d" % (i + 2, d["size"], s["size"]))
+        elif s.get("reserved"):
+            # only a size was asked for (no contents): the size is what must come back
+            if d["size"] != s["size"] % 2**w:
+                fails.append("section %d: reserved size %d, asked for %d" % (i + 2, d["size"], s["size"]))
         elif s["type"] != 0:
             if (d["data"] or b"") != (s["data"] or b"") or d["size"] != len(s["data"] or b""):
                 fails.append("section %d: data differs from what was put in (%d bytes vs %d)" % (i + 2, d["size"], len(s["data"] or b"")))
